@@ -42,10 +42,10 @@ var depends = map[string][]string{
 	"C05": {"C17", "C02"},
 	"C06": {"C15", "C08"},
 	"C07": {},
-	"C08": {"C15"},
+	"C08": {"C15", "C01"},
 	"C09": {"C10"},
 	"C10": {"C09", "C15"},
-	"C11": {"C04", "C12", "C14", "C17"},
+	"C11": {"C04", "C12", "C14", "C17", "C03"},
 	"C12": {},
 	"C13": {"C02"},
 	"C14": {},
